@@ -512,3 +512,196 @@ Proof.
   intros rb compiles body_ok t [H1 [H2 H3]] Hs. unfold raw_of_harness, raw_truth, verdict.
   rewrite H1, H2, H3, Hs. cbn. destruct (find_xfail (t_markers t)); split; try discriminate; reflexivity.
 Qed.
+
+(* ------------------------------------------------------------------------------------------ *)
+(* summary line *)
+
+Lemma summary_parts_spec : forall s n k,
+  In (n, k) (summary_parts s) <->
+  n > 0 /\ In (n, k) [(n_passed s, 0); (n_failed s, 1); (n_skipped s, 2); (n_xfailed s, 3); (n_xpassed s, 4)].
+Proof.
+  intros s n k. unfold summary_parts. rewrite filter_In. cbn [fst].
+  split; intros [A B]; split; try assumption.
+  - apply Z.gtb_lt in B. lia.
+  - apply Z.gtb_lt. lia.
+Qed.
+
+(* ------------------------------------------------------------------------------------------ *)
+(* the order of read_dir does not matter: Path order is a total order, so sorting a set of
+   distinct paths has one result *)
+
+Lemma str_leb_refl : forall a, str_leb a a = true.
+Proof. induction a as [|x a IH]; cbn [str_leb]; [reflexivity|]. rewrite Z.ltb_irrefl. exact IH. Qed.
+
+Lemma str_leb_antisym : forall a b, str_leb a b = true -> str_leb b a = true -> a = b.
+Proof.
+  induction a as [|x a IH]; destruct b as [|y b]; cbn [str_leb]; intros H1 H2; try reflexivity; try discriminate.
+  destruct (x <? y) eqn:E1; destruct (y <? x) eqn:E2; try discriminate.
+  - apply Z.ltb_lt in E1. apply Z.ltb_lt in E2. lia.
+  - apply Z.ltb_ge in E1. apply Z.ltb_ge in E2. assert (x = y) by lia. subst. f_equal. apply IH; assumption.
+Qed.
+
+Lemma str_leb_trans : forall a b c, str_leb a b = true -> str_leb b c = true -> str_leb a c = true.
+Proof.
+  induction a as [|x a IH]; intros b c H1 H2; [reflexivity|].
+  destruct b as [|y b]; [discriminate|]. destruct c as [|z c]; [discriminate|].
+  cbn [str_leb] in *.
+  destruct (x <? y) eqn:E1; destruct (y <? x) eqn:E1'; destruct (y <? z) eqn:E2; destruct (z <? y) eqn:E2';
+    destruct (x <? z) eqn:E3; destruct (z <? x) eqn:E3'; try reflexivity; try discriminate;
+    repeat match goal with
+           | H : (_ <? _) = true |- _ => apply Z.ltb_lt in H
+           | H : (_ <? _) = false |- _ => apply Z.ltb_ge in H
+           end; try lia.
+  apply (IH b c); assumption.
+Qed.
+
+Lemma str_eqb_false : forall a b, str_eqb a b = false <-> a <> b.
+Proof.
+  intros a b. split.
+  - intros H E. subst. rewrite str_eqb_refl in H. discriminate.
+  - intro H. destruct (str_eqb a b) eqn:E; [|reflexivity]. apply str_eqb_spec in E. contradiction.
+Qed.
+
+Lemma path_leb_refl : forall a, path_leb a a = true.
+Proof. induction a as [|x a IH]; cbn [path_leb]; [reflexivity|]. rewrite str_eqb_refl. exact IH. Qed.
+
+Lemma path_leb_antisym : forall a b, path_leb a b = true -> path_leb b a = true -> a = b.
+Proof.
+  induction a as [|x a IH]; destruct b as [|y b]; cbn [path_leb]; intros H1 H2; try reflexivity; try discriminate.
+  rewrite (str_eqb_sym y x) in H2. destruct (str_eqb x y) eqn:E.
+  - apply str_eqb_spec in E. subst. f_equal. apply IH; assumption.
+  - exfalso. apply str_eqb_false in E. apply E. apply str_leb_antisym; assumption.
+Qed.
+
+Lemma path_leb_trans : forall a b c, path_leb a b = true -> path_leb b c = true -> path_leb a c = true.
+Proof.
+  induction a as [|x a IH]; intros b c H1 H2; [reflexivity|].
+  destruct b as [|y b]; [discriminate|]. destruct c as [|z c]; [discriminate|].
+  cbn [path_leb] in *.
+  destruct (str_eqb x y) eqn:Exy; destruct (str_eqb y z) eqn:Eyz.
+  - apply str_eqb_spec in Exy. apply str_eqb_spec in Eyz. subst. rewrite str_eqb_refl. apply (IH b c); assumption.
+  - apply str_eqb_spec in Exy. subst. rewrite Eyz. exact H2.
+  - apply str_eqb_spec in Eyz. subst. rewrite Exy. exact H1.
+  - destruct (str_eqb x z) eqn:Exz.
+    + exfalso. apply str_eqb_spec in Exz. subst. apply str_eqb_false in Exy. apply Exy. apply str_leb_antisym; assumption.
+    + apply (str_leb_trans x y z); assumption.
+Qed.
+
+From Coq Require Import Permutation.
+
+Lemma sorted_head_le : forall a l, sorted_paths (a :: l) -> forall x, In x l -> path_leb (fst a) (fst x) = true.
+Proof.
+  intros a l. revert a. induction l as [|b l IH]; intros a H x Hx; [destruct Hx|].
+  inversion H; subst. destruct Hx as [Hx | Hx].
+  - subst. assumption.
+  - apply (path_leb_trans _ (fst b)); [assumption | apply IH; assumption].
+Qed.
+
+Lemma sorted_tail : forall a l, sorted_paths (a :: l) -> sorted_paths l.
+Proof. intros a l H. inversion H; subst; [constructor | assumption]. Qed.
+
+Lemma nodup_keys_inj : forall (l : list (list str * content)) a b,
+  NoDup (map fst l) -> In a l -> In b l -> fst a = fst b -> a = b.
+Proof.
+  induction l as [|h t IH]; intros a b Hn Ha Hb E; [destruct Ha|].
+  cbn [map] in Hn. inversion Hn; subst. destruct Ha as [Ha | Ha]; destruct Hb as [Hb | Hb]; subst.
+  - reflexivity.
+  - exfalso. apply H1. rewrite E. apply in_map. exact Hb.
+  - exfalso. apply H1. rewrite <- E. apply in_map. exact Ha.
+  - apply IH; assumption.
+Qed.
+
+Lemma sorted_perm_unique : forall l l',
+  sorted_paths l -> sorted_paths l' -> Permutation l l' -> NoDup (map fst l) -> l = l'.
+Proof.
+  induction l as [|a t IH]; intros l' Hs Hs' Hp Hn.
+  - apply Permutation_nil in Hp. subst. reflexivity.
+  - destruct l' as [|a' t']; [apply Permutation_sym, Permutation_nil in Hp; discriminate|].
+    assert (Ea : a = a').
+    { assert (Hin : In a (a' :: t')) by (apply (Permutation_in _ Hp); left; reflexivity).
+      assert (Hin' : In a' (a :: t)) by (apply (Permutation_in _ (Permutation_sym Hp)); left; reflexivity).
+      destruct Hin as [Hin | Hin]; [symmetry; exact Hin|].
+      destruct Hin' as [Hin' | Hin']; [exact Hin'|].
+      apply (nodup_keys_inj (a :: t)); try assumption; [left; reflexivity | right; exact Hin' |].
+      apply path_leb_antisym; [apply (sorted_head_le a t Hs); exact Hin' | apply (sorted_head_le a' t' Hs'); exact Hin]. }
+    subst a'. f_equal. apply IH.
+    + apply (sorted_tail a); exact Hs.
+    + apply (sorted_tail a); exact Hs'.
+    + apply (Permutation_cons_inv Hp).
+    + cbn [map] in Hn. inversion Hn; assumption.
+Qed.
+
+Lemma insert_path_perm : forall e l, Permutation (e :: l) (insert_path e l).
+Proof.
+  intros e l. induction l as [|h t IH]; cbn [insert_path]; [apply Permutation_refl|].
+  destruct (path_leb (fst e) (fst h)); [apply Permutation_refl|].
+  apply (perm_trans (perm_swap h e t)). apply perm_skip. exact IH.
+Qed.
+
+Lemma sort_paths_perm : forall l, Permutation l (sort_paths l).
+Proof.
+  induction l as [|e t IH]; cbn [sort_paths]; [constructor|].
+  apply (perm_trans (perm_skip e IH)). apply insert_path_perm.
+Qed.
+
+Lemma sort_paths_order_independent : forall l l',
+  Permutation l l' -> NoDup (map fst l) -> sort_paths l = sort_paths l'.
+Proof.
+  intros l l' Hp Hn. apply sorted_perm_unique.
+  - apply sort_paths_sorted.
+  - apply sort_paths_sorted.
+  - apply (perm_trans (Permutation_sym (sort_paths_perm l))). apply (perm_trans Hp). apply sort_paths_perm.
+  - apply (Permutation_NoDup (l := map fst l)); [|exact Hn]. apply Permutation_map. apply sort_paths_perm.
+Qed.
+
+(* two trees that differ only in the order in which directories list their entries *)
+Inductive same_tree : node -> node -> Prop :=
+| st_file : forall nm c, same_tree (File nm c) (File nm c)
+| st_dir : forall nm ch ch1 ch2, same_children ch ch1 -> Permutation ch1 ch2 -> same_tree (Dir nm ch) (Dir nm ch2)
+with same_children : list node -> list node -> Prop :=
+| sc_nil : same_children [] []
+| sc_cons : forall x y l l', same_tree x y -> same_children l l' -> same_children (x :: l) (y :: l').
+
+Scheme same_tree_mut := Induction for same_tree Sort Prop
+with same_children_mut := Induction for same_children Sort Prop.
+
+Definition walk_children (pre : list str) (l : list node) : list (list str * content) :=
+  flat_map (walk false pre) l.
+
+Lemma walk_dir_eq : forall top pre nm ch,
+  walk top pre (Dir nm ch) = if negb top && excluded_dir nm then [] else walk_children (pre ++ [nm]) ch.
+Proof.
+  intros top pre nm ch. cbn [walk]. destruct (negb top && excluded_dir nm); [reflexivity|].
+  unfold walk_children. induction ch as [|x r IH]; [reflexivity|]. cbn [flat_map]. rewrite <- IH. reflexivity.
+Qed.
+
+Lemma walk_children_perm : forall pre l l', Permutation l l' -> Permutation (walk_children pre l) (walk_children pre l').
+Proof.
+  intros pre l l' H. unfold walk_children. induction H.
+  - constructor.
+  - cbn [flat_map]. apply Permutation_app_head. assumption.
+  - cbn [flat_map]. rewrite !app_assoc. apply Permutation_app_tail. apply Permutation_app_comm.
+  - eapply perm_trans; eassumption.
+Qed.
+
+Lemma walk_same_tree : forall n n', same_tree n n' -> forall top pre, Permutation (walk top pre n) (walk top pre n').
+Proof.
+  apply (same_tree_mut
+           (fun n n' _ => forall top pre, Permutation (walk top pre n) (walk top pre n'))
+           (fun l l' _ => forall pre, Permutation (walk_children pre l) (walk_children pre l'))).
+  - intros nm c top pre. apply Permutation_refl.
+  - intros nm ch ch1 ch2 _ IH Hp top pre. rewrite !walk_dir_eq.
+    destruct (negb top && excluded_dir nm); [constructor|].
+    apply (perm_trans (IH (pre ++ [nm]))). apply walk_children_perm. exact Hp.
+  - intros pre. constructor.
+  - intros x y l l' _ IHx _ IHl pre. unfold walk_children in *. cbn [flat_map].
+    apply Permutation_app; [apply IHx | apply IHl].
+Qed.
+
+Lemma discover_order_independent : forall n n',
+  same_tree n n' -> NoDup (map fst (walk true [] n)) ->
+  discover_files (Some n) = discover_files (Some n').
+Proof.
+  intros n n' H Hn. unfold discover_files. apply sort_paths_order_independent; [|exact Hn].
+  apply walk_same_tree. exact H.
+Qed.
